@@ -1733,7 +1733,9 @@ pub fn check_c18_fsm(c: &FsmCase, thorough: bool, p: &mut Prng, model: &mut Mode
         }
         if p.chance(1, 8) && calls > 1 {
             let j = p.below(calls as u64) as usize;
-            scripts.push((vec![(i, Fault::Acc(1)), (j, Fault::Err)], p.chance(1, 2)));
+            if j != i {
+                scripts.push((vec![(i, Fault::Acc(1)), (j, Fault::Err)], p.chance(1, 2)));
+            }
         }
     }
     scripts.push((vec![], true));
